@@ -112,7 +112,7 @@ Proof. revert a; induction L as [|x L IH]; intros [|a]; cbn; try done; [intros [
 
 (* ---------- the generic case split of a step ---------- *)
 Ltac step_unfold H :=
-  unfold step_caller, step_fut, step_sync, step_pool, step_job, step_wake, step_wake_with, run_closure, take_f, take_res in H;
+  unfold step_caller, step_y, fire_cell, step_fut, step_sync, step_pool, step_job, step_wake, step_wake_with, run_closure, take_f, take_res in H;
   cbn beta iota zeta in H.
 Ltac step_destr H :=
   repeat (match type of H with
@@ -146,11 +146,15 @@ Ltac solve_stacks :=
   reflexivity.
 
 (* the two steps that end a poll with Ready also pop the await / drop continuation frame *)
-Definition nocont (rest : list frame) : Prop := match rest with FAwRet _ :: _ | FDropRet _ _ :: _ => False | _ => True end.
+Definition nocont (rest : list frame) : Prop := match rest with FAwRet _ :: _ | FDropRet _ _ :: _ | FY YPsfret _ _ _ :: _ => False | _ => True end.
 Lemma pop_cont_cases rest : (pop_cont rest = rest /\ nocont rest) \/
-  exists x r, rest = x :: r /\ pop_cont (x :: r) = r /\ ((exists f, x = FAwRet f) \/ (exists f k, x = FDropRet f k)).
-Proof. destruct rest as [|[] r]; try (by left); right; eexists _, r; (split; [done|split; [done|] ]); [left|right]; eauto. Qed.
+  exists x r, rest = x :: r /\ pop_cont (x :: r) = r /\ ((exists f, x = FAwRet f) \/ (exists f k, x = FDropRet f k) \/ (exists y st u, x = FY YPsfret y st u)).
+Proof.
+  destruct rest as [|x r]; [by left|]. destruct x as [| | | | | | | | | | | | | | | | | | | | | | | | | | | | | | | | | | | | | | | | | | | | | | | pc y st u]; try (by left).
+  all: try (right; eexists _, r; (split; [done|split; [done|] ]); first [left; eauto; fail | right; left; eauto; fail]).
+  destruct pc; try (by left). right. eexists _, r. split; [done|]. split; [done|]. right; right. eauto.
+Qed.
 Ltac pop_cont_split :=
   try match goal with |- context [pop_cont ?r] =>
     let Hpc := fresh "Hpc" in let Hnc := fresh "Hnc" in
-    destruct (pop_cont_cases r) as [[Hpc Hnc]|(?xc & ?rc & -> & Hpc & [[?fc ->]|[?fc [?kc ->]]])]; rewrite Hpc in *; clear Hpc end.
+    destruct (pop_cont_cases r) as [[Hpc Hnc]|(?xc & ?rc & -> & Hpc & [[?fc ->]|[[?fc [?kc ->]]|[?yc [?stc [?uc ->]]]]])]; rewrite Hpc in *; clear Hpc end.
